@@ -45,6 +45,7 @@ def plan(tier, seed):
         units.append({'kind': 'import', 'weight': 3})
         units.append({'kind': 'cms', 'weight': 4, 'flips': 6 if tier == 'quick' else 24})
         units.append({'kind': 'sm9', 'weight': 4})
+        units.append({'kind': 'cbc-padding', 'count': 2, 'weight': 3})
         units.append({'kind': 'record', 'weight': 2})
     return units
 
@@ -93,7 +94,8 @@ def scan(text, secrets):
     # bytes of one window sit on one line; windows are short (8 bytes) so that is the common case
     for name, sec in secrets:
         found = None
-        for w in windows(sec, 6 if name.startswith('password') else 8, 5 if name.startswith('password') else 6):
+        fine = name.startswith(('password', 'plaintext'))
+        for w in windows(sec, 6 if fine else 8, 5 if fine else 6):
             if w in text:
                 found = 'raw'
             hx = w.hex().encode()
@@ -947,6 +949,39 @@ def u_cms(ctx, u):
         cases.append(('verify', 'success', lambda: open_sig(made['sign'])))
         for j, m in enumerate(flips(made['sign'], nflip)):
             cases.append(('verify', 'bitflip', lambda m=m: open_sig(m)))
+    # the content ciphertext with a damaged padding indicator, opened with the right key: the last plaintext octet becomes v
+    # (v octets of "padding" then cover real content), or the ciphertext loses its last block
+    from ..ref import sm4 as RS4
+    from ..ref import modes as RM
+    E = RS4.SM4(cek)
+    ct_ref = RM.cbc_pad_encrypt(E, iv, content)
+    true_pad = 16 - len(content) % 16
+
+    def open_enc(data):
+        ib = ctx.inbuf(data)
+        out = ctx.buf(8192, fill=0)
+        ol = ctypes.c_size_t(8192)
+        ct, alg = ctypes.c_int(0), ctypes.c_int(0)
+        a, b = P(), P()
+        r = lib.cms_decrypt(ib, len(data), ctypes.byref(alg), kb, 16, ctypes.byref(ct), out, ctypes.byref(ol), a[0], a[1], b[0], b[1])
+        ib.free()
+        out.free()
+        return r, None
+    for nm, opener, opname in (('envelop', lambda m: open_env(m, k_rcp), 'deenvelop'), ('encrypt', open_enc, 'decrypt'),
+                               ('sign_and_envelop', lambda m: open_sae(m, k_rcp), 'deenvelop_and_verify')):
+        msg = made.get(nm)
+        if nm == 'encrypt' and msg:
+            cases.append(('decrypt', 'success', lambda msg=msg: open_enc(msg)))
+        at = msg.find(ct_ref) if msg else -1
+        if at < 0 or len(ct_ref) < 32:
+            if msg and nm != 'sign_and_envelop':
+                ctx.stat('cms_padding_fault_ciphertext_not_located')
+            continue
+        for v in [x for x in (0, 1, 2, 3, 8, 9, 12, 15, 16, 17, 32, 255) if x != true_pad] + [rng.randrange(2, 17)]:
+            m = bytearray(msg)
+            m[at + len(ct_ref) - 17] ^= true_pad ^ v
+            cases.append((opname, 'padding-indicator-%d' % min(v, 17), lambda m=bytes(m), opener=opener: opener(m)))
+            ctx.stat('cms_padding_faults')
     outcome = {}
     for op, path, fn in cases:
         cap = Capture(ctx)
@@ -954,10 +989,10 @@ def u_cms(ctx, u):
             ctx.begin(['cms', op, path])
             r, got = fn()
             ctx.shim.vf_fflush_all()
-        judge(ctx, cap, secrets + ([('content', content)] if op != 'verify' else []), 'cms:' + op, path)
+        judge(ctx, cap, secrets + ([('content', content), ('plaintext_tail', content[-15:])] if op != 'verify' else []), 'cms:' + op, path)
         outcome.setdefault((op, path), []).append(r)
         ctx.stat('cms_open_' + ('ok' if r == 1 else 'refused'))
-    for op in ('deenvelop', 'deenvelop_and_verify', 'verify'):
+    for op in ('deenvelop', 'deenvelop_and_verify', 'verify', 'decrypt'):
         if (op, 'success') in outcome:
             ctx.check(outcome[(op, 'success')] == [1], 'harness:cms-%s-honest-failed' % op, ret=outcome[(op, 'success')])
     for op in ('deenvelop', 'deenvelop_and_verify'):
@@ -983,6 +1018,66 @@ def u_cms(ctx, u):
     for b in (nb, serial, out, cs, cr, kb, ivb, cb, k_sig, k_rcp, k_other):
         b.free()
     ctx.sample({'kind': 'cms', 'cases': len(cases), 'refused': sum(1 for v in outcome.values() for r in v if r != 1)})
+
+
+def u_cbc_padding(ctx, u):
+    """SM4-CBC with padding, decrypted with the right key: valid ciphertexts, ciphertexts whose last plaintext octet was
+    steered to every value 0..32 and 255 (one octet of the last-but-one block changed), and ciphertexts cut at a block boundary,
+    through the one-shot call and the streaming context.  The key and the plaintext are the secrets (the tail of the plaintext
+    is searched with short windows: a diagnostic that dumps "the padding" dumps content when the indicator is too large)."""
+    from ..ref import sm4 as RS4
+    from ..ref import modes as RM
+    rng, lib, L = ctx.rng, ctx.lib, ctx.L
+    for rep in range(u['count']):
+        key, iv = rng.randbytes(16), rng.randbytes(16)
+        n = rng.choice([17, 31, 32, 33, 47, 48, 60, 64, 100])
+        pt = bytes(rng.sample(range(33, 127), 90) + rng.sample(range(128, 250), 30))[:n]   # distinct octets: every window is distinctive
+        ct = RM.cbc_pad_encrypt(RS4.SM4(key), iv, pt)
+        true_pad = 16 - n % 16
+        variants = [('valid', ct)]
+        for v in list(range(0, 33)) + [128, 255]:
+            if v == true_pad:
+                continue
+            m = bytearray(ct)
+            m[len(ct) - 17] ^= true_pad ^ v
+            variants.append(('padding-indicator-%d' % v, bytes(m)))
+        for cut in range(1, len(ct) // 16):
+            variants.append(('cut-%d-blocks' % cut, ct[:len(ct) - 16 * cut]))
+        secrets = [('key', key), ('plaintext', pt)]
+        kb, ivb = ctx.inbuf(key), ctx.inbuf(iv)
+        sk = ctx.buf(L['sizeof_SM4_KEY'], fill=0)
+        lib.sm4_set_decrypt_key(sk, kb)
+        for name, data in variants:
+            ib = ctx.inbuf(data)
+            out = ctx.buf(len(data) + 32, fill=0)
+            ol = ctypes.c_size_t(0)
+            cap = Capture(ctx)
+            with cap:
+                ctx.begin(['cbc-padding', 'oneshot', name, n])
+                r = lib.sm4_cbc_padding_decrypt(sk, ivb, ib, len(data), out, ctypes.byref(ol))
+                ctx.shim.vf_fflush_all()
+            if name == 'valid':
+                ctx.check(r == 1 and out.raw(ol.value) == pt, 'harness:cbc-padding-valid-refused', ret=r)
+            judge(ctx, cap, secrets, 'sm4_cbc_padding_decrypt', 'success' if r == 1 else name.rsplit('-', 1)[0] if name[-1].isdigit() else name)
+            cc = ctx.buf(L['sizeof_SM4_CBC_CTX'], fill=0)
+            cap = Capture(ctx)
+            with cap:
+                ctx.begin(['cbc-padding', 'ctx', name, n])
+                r = lib.sm4_cbc_decrypt_init(cc, kb, ivb)
+                o2 = ctypes.c_size_t(0)
+                if r == 1:
+                    r = lib.sm4_cbc_decrypt_update(cc, ib, len(data), out, ctypes.byref(o2))
+                if r == 1:
+                    o3 = ctypes.c_size_t(0)
+                    r = lib.sm4_cbc_decrypt_finish(cc, ctypes.c_void_p(out.ptr + o2.value), ctypes.byref(o3))
+                ctx.shim.vf_fflush_all()
+            judge(ctx, cap, secrets, 'sm4_cbc_decrypt_finish', 'success' if r == 1 else name.rsplit('-', 1)[0] if name[-1].isdigit() else name)
+            ctx.stat('cbc_padding_cases_%s' % ('accepted' if r == 1 else 'refused'))
+            for b in (ib, out, cc):
+                b.free()
+        for b in (kb, ivb, sk):
+            b.free()
+    ctx.sample({'kind': 'cbc-padding', 'count': u['count']})
 
 
 def u_sm9(ctx, u):
@@ -1057,5 +1152,5 @@ def u_record(ctx, u):
 
 
 def run_unit(ctx, u):
-    {'handshake': u_handshake, 'handshake-fail': u_handshake_fail, 'recv-fail': u_recv_fail, 'ctx-setup': u_ctx_setup, 'peer-secrets': u_peer_secrets, 'sm2': u_sm2, 'pkcs8': u_pkcs8, 'import': u_import, 'cms': u_cms, 'sm9': u_sm9,
+    {'handshake': u_handshake, 'handshake-fail': u_handshake_fail, 'recv-fail': u_recv_fail, 'ctx-setup': u_ctx_setup, 'peer-secrets': u_peer_secrets, 'sm2': u_sm2, 'pkcs8': u_pkcs8, 'import': u_import, 'cms': u_cms, 'sm9': u_sm9, 'cbc-padding': u_cbc_padding,
      'record': u_record}[u['kind']](ctx, u)
